@@ -46,6 +46,27 @@ FASTLY_SUBS = ["vcl_recv", "vcl_hash", "vcl_hit", "vcl_miss", "vcl_pass", "vcl_f
 DEFERRED_RULES = ("unused/variable", "unused/declaration", "unused/goto")
 
 
+# comment placeholders of docs/parser.md besides "before the statement" / "after the statement":
+#   kw          after the keyword:  if /*c*/ (   else if /*c*/ (   switch /*c*/ (   sub /*c*/ name   case /*c*/ "a"   set /*c*/ x = ...
+#   open close  inside the parentheses, before / after the condition or control expression
+#   brace       before the opening brace:  ) /*c*/ {    else /*c*/ {    sub name /*c*/ {
+#   after_brace after the opening brace, same line
+#   colon after before / after the colon of a case label
+#   before_close (switch) before the closing brace;  after_close (block) after the closing brace, same line
+SLOTS = {
+    "sub": ["kw", "brace", "after_brace"],
+    "if": ["kw", "open", "close", "brace", "after_brace"],
+    "elseif": ["kw", "open", "close", "brace", "after_brace"],
+    "else": ["brace", "after_brace"],
+    "switch": ["kw", "open", "close", "brace", "before_close"],
+    "case": ["kw", "colon", "after"],
+    "default": ["colon", "after"],
+    "block": ["after_close"],
+    "set": ["kw"],
+}
+LINE_END_SLOTS = ("after_brace", "after", "after_close")     # a line comment may be used there
+
+
 class Node:
     """kind: sub | simple | if | branch (else-if / else) | switch | case | block"""
     def __init__(self, kind, text="", kids=None):
@@ -55,24 +76,45 @@ class Node:
         self.lead = []            # directive comments on their own lines before the node
         self.trail = []           # comments after the statement on the same line (simple only)
         self.infix = []           # block only: comments before the closing brace
+        self.extra = {}           # slot name -> comments at the other placeholders
+        self.fixed_lead = []      # leading comments that are part of the program itself (the #FASTLY macro, comments of a snippet)
+        self.pre_lead = []        # directive comments above the fixed ones (lead: below them)
         self.line = None
         self.id = None
         self.is_else = False
+        self.file = None          # statements of an embedded managed snippet: the snippet file name
+        self.srcline = None       # ... and their line in it
 
     def walk(self):
         yield self
         for k in self.kids:
             yield from k.walk()
 
+    def slot_kind(self):
+        if self.kind == "branch":
+            return "else" if self.is_else else "elseif"
+        if self.kind == "case":
+            return "default" if self.text.startswith("default") else "case"
+        if self.kind == "simple":
+            return "set" if self.text.startswith("set ") else None
+        return self.kind
+
+    def slots(self):
+        return SLOTS.get(self.slot_kind(), [])
+
 
 class Tagged(str):
-    """a comment text whose identity is kept, so that the line it is rendered on can be looked up"""
+    """a comment text whose identity is kept, so that the place it is rendered at can be looked up"""
 
 
 class Program:
     def __init__(self, subs):
         self.subs = subs
         self.cline = {}
+        self.cpos = {}
+        self.crlf = False
+        self.snippet_scope = "recv"
+        self.snippet_req = ""
 
     def nodes(self):
         for s in self.subs:
@@ -85,44 +127,82 @@ class Program:
 
     def clear(self):
         for n in self.nodes():
-            n.lead, n.trail, n.infix = [], [], []
+            n.lead, n.trail, n.infix, n.extra, n.pre_lead = [], [], [], {}, []
 
     # ---------------------------------------------------------------- rendering
     def render(self):
-        """source text; sets node.line (1-based) for every node that owns a line"""
+        """source text; sets node.line (1-based) for every node that owns a line; records line (cline) and
+        position (cpos, 1-based byte column) of every comment"""
         out = []
-        self.cline = {}
+        self.cline, self.cpos = {}, {}
 
         def emit(s):
             out.append(s)
             return len(out)
 
+        def compose(parts):
+            """parts: strings and comment lists -> one line; comment positions recorded"""
+            line, where = "", []
+            for p in parts:
+                if isinstance(p, str):
+                    line += p
+                else:
+                    for c in p:
+                        if line and not line.endswith((" ", "(")):
+                            line += " "
+                        where.append((c, len(line.encode()) + 1))
+                        line += c + " "
+            ln = emit(line.rstrip())
+            for c, col in where:
+                self.cline[id(c)] = ln
+                self.cpos[id(c)] = col
+            return ln
+
         def comments(cs, ind):
             for c in cs:
                 self.cline[id(c)] = emit(ind + c)
+                self.cpos[id(c)] = len(ind) + 1
+
+        def x(n, slot):
+            return n.extra.get(slot, [])
 
         def stmts(lst, ind):
             for s in lst:
-                comments(s.lead, ind)
+                if s.file is not None:
+                    continue                         # embedded from a managed snippet: not part of this file
+                comments(s.pre_lead + s.fixed_lead + s.lead, ind)
                 if s.kind == "simple":
-                    s.line = emit(ind + s.text + "".join(" " + c for c in s.trail))
-                    for c in s.trail:
-                        self.cline[id(c)] = s.line
+                    if x(s, "kw"):
+                        kw, _, rest = s.text.partition(" ")
+                        s.line = compose([ind + kw + " ", x(s, "kw"), rest + " " if s.trail else rest, s.trail])
+                    else:
+                        s.line = compose([ind + s.text + (" " if s.trail else ""), s.trail])
                 elif s.kind == "if":
-                    s.line = emit(ind + "if (" + s.text + ") {")
+                    s.line = compose([ind + "if ", x(s, "kw"), "(", x(s, "open"), s.text + " " if x(s, "close") else s.text, x(s, "close"), ") ",
+                                      x(s, "brace"), "{ ", x(s, "after_brace")])
                     block(s.kids[0], ind)
                     for b in s.kids[1:]:
-                        emit(ind + "}")
+                        compose([ind + "} ", x(b.prev_block, "after_close")])
                         comments(b.lead, ind)
-                        b.line = emit(ind + ("else {" if b.is_else else "else if (" + b.text + ") {"))
+                        if b.is_else:
+                            b.line = compose([ind + "else ", x(b, "brace"), "{ ", x(b, "after_brace")])
+                        else:
+                            b.line = compose([ind + "else if ", x(b, "kw"), "(", x(b, "open"), b.text + " " if x(b, "close") else b.text, x(b, "close"),
+                                              ") ", x(b, "brace"), "{ ", x(b, "after_brace")])
                         block(b.kids[0], ind)
-                    emit(ind + "}")
+                    compose([ind + "} ", x(s.kids[-1].kids[0] if len(s.kids) > 1 else s.kids[0], "after_close")])
                 elif s.kind == "switch":
-                    s.line = emit(ind + "switch (" + s.text + ") {")
+                    s.line = compose([ind + "switch ", x(s, "kw"), "(", x(s, "open"), s.text + " " if x(s, "close") else s.text, x(s, "close"), ") ",
+                                      x(s, "brace"), "{"])
                     for c in s.kids:
                         comments(c.lead, ind + "  ")
-                        c.line = emit(ind + "  " + c.text)
+                        if c.text.startswith("default"):
+                            c.line = compose([ind + "  default ", x(c, "colon"), ": ", x(c, "after")])
+                        else:
+                            label = c.text[len("case "):-1]
+                            c.line = compose([ind + "  case ", x(c, "kw"), label + " ", x(c, "colon"), ": ", x(c, "after")])
                         stmts(c.kids, ind + "    ")
+                    comments(x(s, "before_close"), ind + "  ")
                     emit(ind + "}")
                 else:
                     raise ValueError(s.kind)
@@ -133,11 +213,54 @@ class Program:
             comments(b.infix, ind + "  ")
 
         for s in self.subs:
+            for k in s.walk():
+                if k.kind == "if":
+                    prev = k.kids[0]
+                    for br in k.kids[1:]:
+                        br.prev_block = prev
+                        prev = br.kids[0]
             comments(s.lead, "")
-            s.line = emit("sub " + s.text + " {")
+            s.line = compose(["sub ", x(s, "kw"), s.text + " ", x(s, "brace"), "{ ", x(s, "after_brace")])
             block(s.kids[0], "")
-            emit("}")
-        return "\n".join(out) + "\n"
+            compose(["} ", x(s.kids[0], "after_close")])
+        self.render_snippets()
+        text = "\n".join(out) + "\n"
+        return text.replace("\n", "\r\n") if self.crlf else text
+
+    def comment_order(self):
+        """position of every leading / trailing / before-closing-brace comment in the statement stream the linter walks
+        (embedded snippet statements included)"""
+        seq = {}
+
+        def go(n):
+            for c in n.pre_lead + n.fixed_lead + n.lead + n.trail:
+                seq[id(c)] = len(seq)
+            for k in n.kids:
+                go(k)
+            for c in n.infix:
+                seq[id(c)] = len(seq)
+        for s in self.subs:
+            go(s)
+        return seq
+
+    def render_snippets(self):
+        """managed snippets embedded at the #FASTLY macro: their text (from the nodes that carry a file name), the request
+        suffix for `implrun lint-ignore`, and the line of each of their statements"""
+        files = {}
+        for n in self.nodes():
+            if n.file is None:
+                continue
+            lines = files.setdefault(n.file, [])
+            for c in n.pre_lead + n.fixed_lead + n.lead:
+                lines.append(c)
+                self.cline[id(c)] = -len(lines)
+            lines.append(n.text + "".join(" " + c for c in n.trail))
+            n.srcline = len(lines)
+            for c in n.trail:
+                self.cline[id(c)] = -len(lines)
+        self.snippet_req = "".join(" scoped:%s:%s:%s" % (self.snippet_scope, f[len("snippet::"):], ("\n".join(ls) + "\n").encode().hex())
+                                   for f, ls in files.items())
+        return files
 
     def line_map(self):
         m = {}
@@ -153,7 +276,7 @@ class Program:
             return '"' + s.encode().hex() + '"'
 
         def meta(n):
-            return "(m (%s) (%s) (%s))" % (" ".join(map(hx, n.lead)), " ".join(map(hx, n.trail)), " ".join(map(hx, n.infix)))
+            return "(m (%s) (%s) (%s))" % (" ".join(map(hx, n.pre_lead + n.fixed_lead + n.lead)), " ".join(map(hx, n.trail)), " ".join(map(hx, n.infix)))
 
         def rules(n, later):
             rs = [r for r in diags.get(n.id, []) if (r in DEFERRED_RULES) == later]
